@@ -191,7 +191,28 @@ def ext_cases(seed, tier, consts, pid):
                 else:
                     add('strljustify_s', [('R', buf)], [(0, 0), dmax, UNK], gi(producer=True, copylike=True), L=L, term=term)
                     add('strremovews_s', [('R', buf)], [(0, 0), dmax, UNK], gi(producer=True, copylike=True), L=L, term=term)
+        # in-place, strings made of blanks only (the backward strip of strremovews_s meets the start of dest):
+        # right flush, left flush (the byte before dest is unreadable) and inside a block whose preceding bytes are blanks
+        for L in sorted(set(x for x in (1, 2, dmax - 1) if 1 <= x < dmax)):
+            for tabs in (False, True):
+                body = [0x09 if (tabs and i % 2) else 0x20 for i in range(L)]
+                tail = [rng.randrange(1, 256) for _ in range(max(dmax - L - 1, 0))]
+                buf = bytes(body + [0] + tail)
+                for mode, pre in (('R', b''), ('L', b''), ('R', b'\x41 \x09 ')):
+                    for f, refb in (('strljustify_s', []), ('strremovews_s', [])):
+                        add(f, [(mode, pre + buf)], [(0, len(pre)), dmax, UNK],
+                            gd(0, len(pre), dmax, 1, producer=True, fail='ret', ref=('ok', refb + [0], None) if dmax > 1 else None),
+                            L=L, term=True, blanks='tabs' if tabs else 'spaces', place=mode + str(len(pre)))
         # wide in-place
+        for L in sorted(set(x for x in (dmax,) if x >= 1)):
+            # an array of dmax non-zero wide characters without terminator, flush against the inaccessible page
+            wb = [rng.choice([0x61, 0x42, 0xe9, 0x3a3, 0x10400]) for _ in range(L)]
+            wbuf = fam_copy.enc(wb, 4)
+            add('wcsset_s', [('R', wbuf)], [(0, 0), dmax, 0x2a, UNK], gd(0, 0, dmax, 4), L=L, term=False)
+            for nn in sorted(set((0, 1, dmax))):
+                add('wcsnset_s', [('R', wbuf)], [(0, 0), dmax, 0x2a, nn, UNK], gd(0, 0, dmax, 4), L=L, term=False, n=nn)
+            add('wcslwr_s', [('R', wbuf)], [(0, 0), dmax, UNK], gd(0, 0, dmax, 4), L=L, term=False)
+            add('wcsupr_s', [('R', wbuf)], [(0, 0), dmax, UNK], gd(0, 0, dmax, 4), L=L, term=False)
         for L in sorted(set(x for x in (0, 1, dmax - 1) if 0 <= x < dmax)):
             wb = [rng.choice([0x61, 0x42, 0xe9, 0x3a3, 0x10400]) for _ in range(L)]
             wbuf = fam_copy.enc(wb + [0] + [rng.randrange(1, 0x10000) for _ in range(dmax - L - 1)], 4)
@@ -225,6 +246,90 @@ def ext_cases(seed, tier, consts, pid):
                     ('stpcpy_s', [(0, 0), 0, (1, 0), (2, 0), UNK, UNK]), ('strnterminate_s', [(0, 0), rmax + 1, UNK]), ('gets_s', [(0, 0), rmax + 1, UNK, (1, 0)])):
         add(f, [('R', d8), ('R', b'ab\0'), ('R', errp0)], args, gd(0, 0, 0, 1, writable=[(2, 0, 4)], fail='none'), bad='size')
     return cs
+
+# ------------------------------------------------------------------ family (b2): both operands inside one object (C07)
+def _isect(a, b): return max(a[0], b[0]) < min(a[1], b[1])
+
+def overlap_cases(seed, tier, consts):
+    """the modelled entry points of family (a)/(b) with dest and src at every pair of offsets of one small arena:
+    meta['ovl'] = (must_fail, declared_overlap); gd['ref'] is the result the same call gives on separate objects,
+    computed from the bytes the source holds BEFORE the call"""
+    rng = random.Random(seed * 17 + 11); cs = []; n = [0]
+    def add(func, blocks, args, g, **meta):
+        n[0] += 1; meta.update(cls='sweep-ovl', func=func, gd=g); cs.append(vlib.Case('v%d' % n[0], func, blocks, args, meta))
+    errp0 = b'\x7f\x7f\x7f\x7f'
+    N = 12 if tier != 'thorough' else 16
+    for dmax in ((3, 5) if tier != 'thorough' else (2, 3, 5, 8)):
+        for a in range(0, N - dmax + 1):
+            for b in range(0, N):
+                if a == b: continue
+                for L in sorted(set(x for x in (0, 1, 2, abs(a - b) - 1, abs(a - b), abs(a - b) + 1, dmax - 1, dmax) if 0 <= x and b + x < N)):
+                    arena = [rng.choice([0x61, 0x62, 0x63, 0x3b, 0xe9]) for _ in range(N)]
+                    arena[b + L] = 0
+                    for i in range(b, b + L):
+                        if arena[i] == 0: arena[i] = 0x61
+                    src = arena[b:b + L]
+                    D = (a, a + dmax)
+                    # stpcpy_s
+                    W = (a, a + L + 1); R = (b, b + L + 1)
+                    g = gd(0, a, dmax, 1, producer=True, slack=True, fail='errp', writable=[(1, 0, 4)], copylike=True,
+                           ref=(('ok', src + [0], 'P0:%d' % (a + L)) if L < dmax else ('fail',)))
+                    add('stpcpy_s', [('R', bytes(arena)), ('R', errp0)], [(0, a), dmax, (0, b), (1, 0), UNK, UNK], g, L=L, a=a, b=b,
+                        ovl=(L < dmax and _isect(W, R), _isect(D, R)))
+                    for slen in sorted(set(x for x in (1, L, L + 1, abs(a - b), abs(a - b) + 1) if 1 <= x and b + x <= N)):
+                        k = min(L, slen); W = (a, a + k + 1); R = (b, b + min(L + 1, slen))
+                        g = gd(0, a, dmax, 1, producer=True, slack=True, fail='errp', writable=[(1, 0, 4)], copylike=True,
+                               ref=(('ok', src[:k] + [0], 'P0:%d' % (a + k)) if k < dmax else ('fail',)))
+                        add('stpncpy_s', [('R', bytes(arena)), ('R', errp0)], [(0, a), dmax, (0, b), slen, (1, 0), UNK, UNK], g, L=L, slen=slen, a=a, b=b,
+                            ovl=(k < dmax and _isect(W, R), _isect(D, R)))
+                    # memccpy_s(dest, dmax, src, c, n): up to and including the first c, at most n bytes
+                    for nn in sorted(set(x for x in (1, 2, L, L + 1, abs(a - b), abs(a - b) + 1, dmax) if 1 <= x <= dmax and b + x <= N)):
+                        c = 0x3b; body = arena[b:b + nn]
+                        stop = body.index(c) + 1 if c in body else nn
+                        W = (a, a + stop + (0 if c in body else 1)); R = (b, b + stop)
+                        ok = (c in body or nn < dmax)
+                        g = gd(0, a, dmax, 1, fail='ret', copylike=True, ref=(('ok', body[:stop], None) if ok else ('fail',))); g['mem'] = True
+                        add('memccpy_s', [('R', bytes(arena))], [(0, a), dmax, (0, b), c, nn, UNK, UNK], g, n=nn, a=a, b=b,
+                            ovl=(ok and _isect(W, R), _isect(D, (b, b + nn))))
+                    # field copy: exactly slen characters, the rest of the field zeroed
+                    for slen in sorted(set(x for x in (1, 2, abs(a - b), dmax) if 1 <= x <= dmax and b + x <= N)):
+                        W = (a, a + slen); R = (b, b + slen)
+                        g = gd(0, a, dmax, 1, fail='ret', copylike=True, ref=('ok', arena[b:b + slen] + [0] * (dmax - slen), None))
+                        add('strcpyfld_s', [('R', bytes(arena))], [(0, a), dmax, (0, b), slen, UNK], g, slen=slen, a=a, b=b, ovl=(_isect(W, R), _isect(D, R)))
+    # wide memory copies: elements of 4 bytes, dest and src at element offsets of one arena
+    NW = 8
+    for dlen in (2, 3, 4):
+        for a in range(0, NW - dlen + 1):
+            for b in range(0, NW):
+                for cnt in sorted(set(x for x in (1, 2, dlen) if 1 <= x <= dlen and b + x <= NW)):
+                    war = [rng.randrange(1, 0x10ffff) for _ in range(NW)]
+                    W = (a, a + cnt); R = (b, b + cnt); D = (a, a + dlen)
+                    for f in ('wmemcpy_s', 'wmemmove_s'):
+                        g = gd(0, 4 * a, dlen, 4, fail='ret', copylike=True, ref=('ok', war[b:b + cnt], None)); g['mem'] = True
+                        add(f, [('R', fam_copy.enc(war, 4))], [(0, 4 * a), dlen, (0, 4 * b), cnt, UNK, UNK], g, cnt=cnt, a=a, b=b,
+                            ovl=((f == 'wmemcpy_s' and a != b and _isect(W, R)), f == 'wmemcpy_s' and a != b and _isect(D, R)))
+    return cs
+
+def oracle_C07(case, o, consts):
+    """C07 on the arena cases: success only with the exact result of the same call on separate objects; when the elements
+    written and the source elements read intersect the call must fail with ESOVRLP; operands that do not intersect at all
+    must behave as on separate objects"""
+    g = case.meta['gd']; fails = []
+    must_fail, declared = case.meta['ovl']
+    if o.fault != '-' or o.ret in ('FAULT', 'CRASH', 'HANG'):
+        return [('fault', 'call faulted at %s with both operands inside one exactly-sized object' % o.fault)]
+    fl = failed(case, o)
+    if fl is None: return fails
+    da = dest_after(case, o); want = g['ref']
+    if not fl[0]:
+        if must_fail: fails.append(('overlap-accepted', 'the elements written and the source elements read intersect (dest offset %s, src offset %s) but the call reported success' % (case.meta['a'], case.meta['b'])))
+        elif want[0] == 'ok' and da[:len(want[1])] != want[1]:
+            fails.append(('wrong-result', 'success with dest = %s.., the same call on separate objects gives %s' % (da[:len(want[1]) + 1], want[1])))
+        elif want[0] == 'fail': fails.append(('truncated-success', 'the result does not fit but the call reported success'))
+    else:
+        if must_fail and fl[1] not in (None, ESOVRLP): fails.append(('overlap-wrong-code', 'overlapping operands rejected with %s, not ESOVRLP' % fl[1]))
+        if not declared and want[0] == 'ok': fails.append(('disjoint-rejected', 'operands that do not intersect were rejected with %s' % fl[1]))
+    return fails
 
 # ------------------------------------------------------------------ family (c): descriptors for the cases of other generators
 def conv_gd(x):
